@@ -1,0 +1,209 @@
+//go:build verif
+
+// Contracts for the deductive verification machinery kept in /verif (govc).
+// Comment-only file, compiled only under the build tag "verif".
+//
+// Property C16: every entry of FuncMap computes what its documentation says.
+// Standard-library and xstrings functions are uninterpreted: a lambda is correct
+// iff it passes its arguments to the documented namesake in the documented order.
+package template_funcs
+
+// ---- lambdas: the Go namesake with the subject string as last argument ----------
+
+//@ funcmap "contains" props=C16
+//@   ensures result == strings.Contains(s, substr)
+//@   assigns nothing
+//@ funcmap "hasPrefix" props=C16
+//@   ensures result == strings.HasPrefix(s, prefix)
+//@   assigns nothing
+//@ funcmap "hasSuffix" props=C16
+//@   ensures result == strings.HasSuffix(s, suffix)
+//@   assigns nothing
+//@ funcmap "join" props=C16
+//@   ensures result == strings.Join(elems, sep)
+//@   assigns nothing
+//@ funcmap "replace" props=C16
+//@   ensures result == strings.Replace(s, old, new, n)
+//@   assigns nothing
+//@ funcmap "replaceAll" props=C16
+//@   ensures result == strings.ReplaceAll(s, old, new)
+//@   assigns nothing
+//@ funcmap "split" props=C16
+//@   ensures result == strings.Split(s, sep)
+//@   assigns nothing
+//@ funcmap "splitAfter" props=C16
+//@   ensures result == strings.SplitAfter(s, sep)
+//@   assigns nothing
+//@ funcmap "splitAfterN" props=C16
+//@   ensures result == strings.SplitAfterN(s, sep, n)
+//@   assigns nothing
+//@ funcmap "trim" props=C16
+//@   ensures result == strings.Trim(s, cutset)
+//@   assigns nothing
+//@ funcmap "trimLeft" props=C16
+//@   ensures result == strings.TrimLeft(s, cutset)
+//@   assigns nothing
+//@ funcmap "trimPrefix" props=C16
+//@   ensures result == strings.TrimPrefix(s, prefix)
+//@   assigns nothing
+//@ funcmap "trimRight" props=C16
+//@   ensures result == strings.TrimRight(s, cutset)
+//@   assigns nothing
+//@ funcmap "trimSuffix" props=C16
+//@   ensures result == strings.TrimSuffix(s, suffix)
+//@   assigns nothing
+
+// ---- direct bindings: object identity with the documented namesake ----------------
+
+//@ funcmap "trimSpace" props=C16
+//@   is strings.TrimSpace
+//@ funcmap "lower" props=C16
+//@   is strings.ToLower
+//@ funcmap "upper" props=C16
+//@   is strings.ToUpper
+//@ funcmap "camelcase" props=C16
+//@   is github.com/huandu/xstrings.ToCamelCase
+//@ funcmap "snakecase" props=C16
+//@   is github.com/huandu/xstrings.ToSnakeCase
+//@ funcmap "kebabcase" props=C16
+//@   is github.com/huandu/xstrings.ToKebabCase
+//@ funcmap "firstLower" props=C16
+//@   is github.com/huandu/xstrings.FirstRuneToLower
+//@ funcmap "firstUpper" props=C16
+//@   is github.com/huandu/xstrings.FirstRuneToUpper
+//@ funcmap "firstIsLower" props=C16
+//@   is github.com/vektra/mockery/v3/template_funcs.FirstIsLower
+//@ funcmap "exported" props=C16
+//@   is github.com/vektra/mockery/v3/template_funcs.Exported
+//@ funcmap "matchString" props=C16
+//@   is regexp.MatchString
+//@ funcmap "quoteMeta" props=C16
+//@   is regexp.QuoteMeta
+//@ funcmap "base" props=C16
+//@   is path/filepath.Base
+//@ funcmap "clean" props=C16
+//@   is path/filepath.Clean
+//@ funcmap "dir" props=C16
+//@   is path/filepath.Dir
+//@ funcmap "readFile" props=C16
+//@   is github.com/vektra/mockery/v3/template_funcs.ReadFile
+//@ funcmap "expandEnv" props=C16
+//@   is os.ExpandEnv
+//@ funcmap "getenv" props=C16
+//@   is os.Getenv
+//@ funcmap "add" props=C16
+//@   is github.com/vektra/mockery/v3/template_funcs.Add[int]
+//@ funcmap "decr" props=C16
+//@   is github.com/vektra/mockery/v3/template_funcs.Decr[int]
+//@ funcmap "div" props=C16
+//@   is github.com/vektra/mockery/v3/template_funcs.Div[int]
+//@ funcmap "incr" props=C16
+//@   is github.com/vektra/mockery/v3/template_funcs.Incr[int]
+//@ funcmap "min" props=C16
+//@   is github.com/vektra/mockery/v3/template_funcs.Min[int]
+//@ funcmap "mod" props=C16
+//@   is github.com/vektra/mockery/v3/template_funcs.Mod[int]
+//@ funcmap "mul" props=C16
+//@   is github.com/vektra/mockery/v3/template_funcs.Mul[int]
+//@ funcmap "sub" props=C16
+//@   is github.com/vektra/mockery/v3/template_funcs.Sub[int]
+//@ funcmap "ceil" props=C16
+//@   is math.Ceil
+//@ funcmap "floor" props=C16
+//@   is math.Floor
+//@ funcmap "round" props=C16
+//@   is math.Round
+//@ funcmap "randInt" props=C16
+//@   is math/rand/v2.Int
+
+// ---- case functions ------------------------------------------------------------
+
+// "exported returns its input with the first letter upper-cased (or the matching
+// initialism) ... for every string including empty and non-ASCII ones": the first
+// letter is the first *rune* of s.
+//@ func Exported props=C16
+//@   ensures#empty s == "" ==> result == ""
+//@   ensures#initialism s != "" && (exists i int :: 0 <= i && i < len(golintInitialisms) && strings.ToUpper(s) == golintInitialisms[i]) ==> result == strings.ToUpper(s)
+//@   ensures#firstrune s != "" && !(exists i int :: 0 <= i && i < len(golintInitialisms) && strings.ToUpper(s) == golintInitialisms[i])
+//@       ==> result == concat(string(unicode.ToUpper(utf8.DecodeRuneInString(s))), substr(s, second(utf8.DecodeRuneInString(s)), len(s)))
+//@   loop 0: invariant forall j int :: 0 <= j && j < $i ==> strings.ToUpper(s) != golintInitialisms[j]
+//@   assigns nothing
+
+// Facts about the Unicode tables and the UTF-8 decoder used below (assumed, listed in the evidence).
+//@ axiom lower_is_letter: forall r rune :: unicode.IsLower(r) ==> unicode.IsLetter(r) && !unicode.IsUpper(r)
+//@ axiom decode_size: forall s string :: len(s) > 0 ==> 1 <= second(utf8.DecodeRuneInString(s)) && second(utf8.DecodeRuneInString(s)) <= len(s)
+
+// "firstIsLower reports whether the first character is a lower-case letter, for every
+// string including empty and non-ASCII ones". Both readings of "lower-case letter" are
+// accepted (IsLower, or letter-and-not-upper); the first *byte* as a rune is not.
+//@ func FirstIsLower props=C16
+//@   ensures#empty len(s) == 0 ==> result == false
+//@   ensures#lower len(s) > 0 && unicode.IsLower(utf8.DecodeRuneInString(s)) ==> result
+//@   ensures#letter len(s) > 0 && result ==> unicode.IsLetter(utf8.DecodeRuneInString(s)) && !unicode.IsUpper(utf8.DecodeRuneInString(s))
+//@   assigns nothing
+
+//@ func ReadFile props=C16
+//@   ensures path == "" ==> result == "" && err == nil
+//@   ensures err != nil ==> result == ""
+//@   assigns nothing
+
+// ---- arithmetic at int (the instantiation registered in FuncMap) -------------------
+// Go's int arithmetic wraps at 64 bits ("safety wrap64"); the specification is the
+// left fold of the wrapped operator over all arguments, in argument order.
+
+//@ spec foldAdd(i1 int, in []int, n int) int
+//@ axiom foldAdd0: forall i1 int, in []int :: foldAdd(i1, in, 0) == i1
+//@ axiom foldAddS: forall i1 int, in []int, n int :: n > 0 ==> foldAdd(i1, in, n) == wrap64(foldAdd(i1, in, n-1) + in[n-1])
+//@ spec foldSub(i1 int, in []int, n int) int
+//@ axiom foldSub0: forall i1 int, in []int :: foldSub(i1, in, 0) == i1
+//@ axiom foldSubS: forall i1 int, in []int, n int :: n > 0 ==> foldSub(i1, in, n) == wrap64(foldSub(i1, in, n-1) - in[n-1])
+//@ spec foldMul(i1 int, in []int, n int) int
+//@ axiom foldMul0: forall i1 int, in []int :: foldMul(i1, in, 0) == i1
+//@ axiom foldMulS: forall i1 int, in []int, n int :: n > 0 ==> foldMul(i1, in, n) == wrap64(foldMul(i1, in, n-1) * in[n-1])
+//@ spec foldDiv(i1 int, in []int, n int) int
+//@ axiom foldDiv0: forall i1 int, in []int :: foldDiv(i1, in, 0) == i1
+//@ axiom foldDivS: forall i1 int, in []int, n int :: n > 0 ==> foldDiv(i1, in, n) == wrap64(foldDiv(i1, in, n-1) / in[n-1])
+//@ spec foldMod(i1 int, in []int, n int) int
+//@ axiom foldMod0: forall i1 int, in []int :: foldMod(i1, in, 0) == i1
+//@ axiom foldModS: forall i1 int, in []int, n int :: n > 0 ==> foldMod(i1, in, n) == foldMod(i1, in, n-1) % in[n-1]
+
+//@ func Add[int] props=C16
+//@   safety wrap64
+//@   ensures result == foldAdd(i1, in, len(in))
+//@   loop 0: invariant sum == foldAdd(i1, in, $i)
+//@   assigns nothing
+//@ func Sub[int] props=C16
+//@   safety wrap64
+//@   ensures result == foldSub(i1, in, len(in))
+//@   loop 0: invariant sub == foldSub(i1, in, $i)
+//@   assigns nothing
+//@ func Mul[int] props=C16
+//@   safety wrap64
+//@   ensures result == foldMul(i1, in, len(in))
+//@   loop 0: invariant sub == foldMul(i1, in, $i)
+//@   assigns nothing
+// Division by zero panics; text/template turns the panic into a template error, which the
+// property allows ("returns a value or a template error"): zero divisors are outside the domain.
+//@ func Div[int] props=C16
+//@   safety wrap64
+//@   requires forall k int :: 0 <= k && k < len(in) ==> in[k] != 0
+//@   ensures result == foldDiv(i1, in, len(in))
+//@   loop 0: invariant sub == foldDiv(i1, in, $i)
+//@   assigns nothing
+//@ func Mod[int] props=C16
+//@   safety wrap64
+//@   requires forall k int :: 0 <= k && k < len(in) ==> in[k] != 0
+//@   ensures result == foldMod(i1, in, len(in))
+//@   loop 0: invariant sub == foldMod(i1, in, $i)
+//@   assigns nothing
+//@ func Incr[int] props=C16
+//@   safety wrap64
+//@   ensures result == wrap64(i + 1)
+//@   assigns nothing
+//@ func Decr[int] props=C16
+//@   safety wrap64
+//@   ensures result == wrap64(i - 1)
+//@   assigns nothing
+//@ func Min[int] props=C16
+//@   ensures result == slices.Min(x)
+//@   assigns nothing
